@@ -224,6 +224,10 @@ def run(tier, seed):
             cases_.append((name, b, x, FMTS if tier == "thorough" else FMTS[:4]))
     for name, b in gen:
         cases_.append((name, b, rnd.choice(EXTS[:2]), [rnd.choice(FMTS)]))
+    # outlines parsed with EXT_PARSE_OPML: the engine replaces its text by the imported document while parsing -- the tree must describe THAT text
+    import hostile_frags as H
+    for k, b in enumerate(H.OPML[:4] + [b'<?xml version="1.0" encoding="utf-8"?>\n<opml version="1.0">\n<head><title>T</title></head>\n<body>\n<outline text="One" _note="&#10;text *em*&#10;&#10;"><outline text="Two" _note="&#10;more [l](u)&#10;"></outline></outline>\n<outline text="&gt;&gt;Metadata&lt;&lt;"><outline text="title" _note="T"/></outline>\n</body>\n</opml>\n']):
+        cases_.append(("opml%d" % k, b, docs.STD | E["PARSE_OPML"], ["html", "latex"]))
     # delimiter soup: every ordered pair of inline delimiters as "a x b", "a x b x a" and "a b a" -- the four pairing passes meet every delimiter inside every other
     for k, a, b2, d in docs.delimiter_soup():
         cases_.append(("soup", d.encode(), docs.STD if k != 1 else EXTS[(len(a) + len(b2)) % 3], ["html"] if k else ["latex"]))
@@ -242,7 +246,7 @@ def run(tier, seed):
                     s.append(line("e_data", 0, docs.FMT[f])); s.append(line("e_tree", 0, "export:" + f))
             # sub-ranges on line boundaries
             cuts = [k + 1 for k, ch in enumerate(b) if ch == 10][:40]
-            if cuts and len(b) < 20000:
+            if cuts and len(b) < 20000 and not name.startswith("opml"):          # (an imported outline's text is not the bytes handed in: offsets into those mean nothing)
                 c1 = cuts[len(cuts) // 2]
                 s.append(line("e_subtree", 0, 0, c1)); s.append(line("e_subtree", 0, c1, len(b) - c1)); s.append(line("e_subtree", 0, 0, len(b)))
             s.append(line("e_free", 0))
